@@ -1,5 +1,6 @@
 import ChythonModel.Proofs.C14Charge
 import ChythonModel.Proofs.C14Hydrogens
+import ChythonModel.Proofs.C14Implicify
 /-!
 # C14 — normalisation conserves composition, is idempotent and numbering independent
 
@@ -168,5 +169,70 @@ theorem neutralizeCheck_sound (m o : Mol) (donors acceptors changed : List Nat)
         (changed.filter (donors.contains ·)).length := by
       split at hsz <;> (try split at hsz) <;> simp only [Bool.and_eq_true, beq_iff_eq] at hsz <;> omega
     exact ⟨heavyAtoms_eq_of_skeleton hs, by omega, by omega⟩
+
+/-! ## explicit / implicit hydrogens -/
+
+/-- **`explicify_hydrogens` is a pure re-drawing**: same heavy atoms, same net charge, same total hydrogen count; afterwards
+    every atom has implicit count 0 and exactly `cnt` atoms were added. (An atom without a count makes it raise
+    `ValenceError` before anything is changed: `explicify m = .error _`.) -/
+theorem explicify_conserves (m m' : Mol) (cnt : Nat) (h : explicify m = .ok (m', cnt)) :
+    heavyAtoms m' = heavyAtoms m ∧ netCharge m' = netCharge m ∧ hydrogens m' = hydrogens m ∧
+    (∀ p ∈ m'.atoms, p.2.implH = some 0) ∧ m'.atoms.length = m.atoms.length + cnt :=
+  explicify_spec m m' cnt h
+
+example : ∃ m m' cnt, explicify m = .ok (m', cnt) ∧ cnt = 4 :=
+  ⟨⟨[(1, { z := 6, implH := some 4 })], [(1, [])]⟩, _, _, rfl, rfl⟩
+
+/-- the error branch: a missing count is reported, nothing is returned -/
+theorem explicify_raises_on_valence_error (m : Mol) (h : ∃ p ∈ m.atoms, p.2.implH = none) :
+    explicify m = .error .valenceError := by
+  have : ∀ (atoms : List (Nat × Atom)), (∃ p ∈ atoms, p.2.implH = none) → toAdd atoms = .error .valenceError := by
+    intro atoms
+    induction atoms with
+    | nil => intro ⟨p, hp, _⟩; simp at hp
+    | cons q tl ih =>
+      intro ⟨p, hp, hn⟩
+      obtain ⟨n, a⟩ := q
+      rw [toAdd]
+      cases ha : a.implH with
+      | none => rfl
+      | some k =>
+        simp only
+        rcases List.mem_cons.mp hp with rfl | hp
+        · simp [ha] at hn
+        · rw [ih ⟨p, hp, hn⟩]
+  unfold explicify
+  rw [this m.atoms h]
+
+/-- **`implicify_hydrogens` removes nothing but plain hydrogen atoms** -/
+theorem implicify_keeps_heavy_atoms (m m' : Mol) (cnt : Nat) (fx : List Nat) (h : implicify m = .ok (m', cnt, fx))
+    (hnd : m.ids.Nodup) : heavyAtoms m' = heavyAtoms m :=
+  implicify_heavy m m' cnt fx h hnd
+
+/-- Full statement (not proved at molecule level): `implicify (explicify m) = m` for every molecule whose hydrogen counts
+    come from `calc_implicit`, that has no explicit hydrogen and no aromatic bond. What is missing is the list surgery
+    (the new atoms are exactly the ones collected and removed, adjacency restored in order); the round trip is compared with
+    the real code on every molecule of the pool (stream IMPL `:explicit`, relational oracle `implicify-after-explicify`). -/
+def ExplicifyImplicifyInverse : Prop :=
+  ∀ (m e : Mol) (cnt : Nat), m.ids.Nodup → (∀ p ∈ m.atoms, p.2.z ≠ 1) →
+    (∀ n row, m.adj.lookup n = some row → ∀ kb ∈ row, kb.2.order ≠ 4) →
+    Valence.fixStructure m = some m → explicify m = .ok (e, cnt) →
+    ∃ fx, implicify e = .ok (m, cnt, fx)
+
+/-- **Proved part (per atom)**: the `h ≥ i` scan of `implicify_hydrogens` inverts `calc_implicit`. If the bonds an atom
+    keeps (none aromatic) give `h > 0` by `calc_implicit` and the atom carries exactly `h` explicit plain hydrogens, all of
+    them are removed and the count `h` is restored. -/
+theorem explicify_implicify_inverse_partial (t : Valence.Rules) (a : Atom) (m : Mol) (row : List (Nat × Bond)) (hs : List Nat)
+    (bs : List Valence.BE) (h : Nat) (hk : keptBonds m row hs = some bs) (hna : ∀ b ∈ bs, b.1 ≠ 4) (hz : a.z ≠ 1)
+    (hc : Valence.calcWith t ⟨a.z, a.charge, a.radical, bs⟩ = some h) (hlen : hs.length = h) (hpos : 0 < h) :
+    scan t a m row hs hs.length = .remove hs h :=
+  scan_inverts_calc t a m row hs bs h hk hna hz hc hlen hpos
+
+/-- whatever the scan removes, the restored count is at least the number of removed hydrogens (never a negative balance) -/
+theorem implicify_count_covers_removed (t : Valence.Rules) (a : Atom) (m : Mol) (row : List (Nat × Bond)) (hs hi : List Nat) (h : Nat)
+    (hsc : scan t a m row hs hs.length = .remove hi h) : hi.length ≤ h ∧ ∃ j, hi = hs.take j := by
+  obtain ⟨j, hj, e, g⟩ := scan_remove t a m row hs hs.length hi h hsc
+  refine ⟨?_, j, e⟩
+  rw [e, List.length_take]; omega
 
 end ChythonModel.Props.C14
